@@ -114,7 +114,7 @@ impl DeweyVersion {
             /*
              * PKGREVISION denoted by nb<x>.  If <x> is missing then 0.
              */
-            if slice.starts_with("nb") {
+            if starts_with_nocase(slice, "nb") {
                 idx += 2;
                 let slice = &s[idx..s.len()];
                 let nbstr: String =
@@ -128,23 +128,23 @@ impl DeweyVersion {
              * Supported modifiers and their weightings so that they are ordered
              * correctly.
              */
-            if slice.starts_with("alpha") {
+            if starts_with_nocase(slice, "alpha") {
                 version.push(-3);
                 idx += 5;
                 continue;
-            } else if slice.starts_with("beta") {
+            } else if starts_with_nocase(slice, "beta") {
                 version.push(-2);
                 idx += 4;
                 continue;
-            } else if slice.starts_with("pre") {
+            } else if starts_with_nocase(slice, "pre") {
                 version.push(-1);
                 idx += 3;
                 continue;
-            } else if slice.starts_with("rc") {
+            } else if starts_with_nocase(slice, "rc") {
                 version.push(-1);
                 idx += 2;
                 continue;
-            } else if slice.starts_with("pl") {
+            } else if starts_with_nocase(slice, "pl") {
                 version.push(0);
                 idx += 2;
                 continue;
@@ -159,7 +159,7 @@ impl DeweyVersion {
              */
             if c.is_ascii_alphabetic() {
                 version.push(0);
-                version.push(c as i64);
+                version.push(c.to_ascii_lowercase() as i64);
                 idx += 1;
             } else {
                 idx += c.len_utf8();
@@ -371,6 +371,14 @@ impl Dewey {
         true
     }
 }
+/**
+ * ASCII case-insensitive prefix test, as strncasecmp() in pkg_install.
+ */
+fn starts_with_nocase(s: &str, prefix: &str) -> bool {
+    s.len() >= prefix.len()
+        && s.as_bytes()[..prefix.len()].eq_ignore_ascii_case(prefix.as_bytes())
+}
+
 /**
  * Compare two [`i64`]s using the specified operator.
  */
